@@ -246,7 +246,10 @@ HVersions7 ==
                           Module(<<PlainDef("n", <<"x">>), PlainDef("x", <<"n">>)>>),
                           Module(<<PlainDef("n", <<"x">>), PlainDef("x", <<>>)>>) >>
          [] f = "t" -> << Module(<<Test("test_1", <<"n">>)>>),
-                          Module(<<PlainDef("x", <<>>), Test("test_1", <<"n", "x">>)>>) >>
+                          Module(<<PlainDef("x", <<>>), Test("test_1", <<"n", "x">>)>>),
+                          \* the test module imports the fixture BY NAME itself (`from ..helperh import n`): whatever a server
+                          \* makes of a module's own imports must survive closing the unmodified document
+                          Module(<<Spelled(Imp("h", "n"), 2), Test("test_1", <<"n", "x">>)>>) >>
          [] f = "h" -> << Module(<<PlainDef("n", <<>>)>>),
                           Module(<<PlainDef("n", <<>>), Star("c")>>),
                           Module(<<PlainDef("x", <<>>)>>),
